@@ -86,6 +86,15 @@ theorem C10_accepts_authentic (cr : Crypto) (c : Creds) (im : InMsg) (s : Spec.S
     (hpayload : extractScoped cr c im.m = .ok s) (hnoerr : hasUsmError s.pdu.varbinds = false) :
     processIncoming cr c im = .ok s := by
   unfold processIncoming
+  have h0 : shapeCheck im.m = .ok () := by
+    unfold shapeCheck
+    by_cases ht : (im.m.dataTag == 4) = true
+    · have : privFlag im.m = true := by
+        by_cases hp : privFlag im.m = true
+        · exact hp
+        · exfalso; unfold extractScoped at hpayload; simp [ht, hp] at hpayload
+      simp [this]
+    · simp [ht]
   have h1 : checkUser c im.m = .ok () := by simp [checkUser, huser]
   have h2 : verifyAuth cr c im = .ok () := by
     unfold verifyAuth
@@ -98,7 +107,7 @@ theorem C10_accepts_authentic (cr : Crypto) (c : Creds) (im : InMsg) (s : Spec.S
     unfold checkLevel
     rw [hauthf, hprivf]
     cases c.auth.isSome <;> cases c.priv.isSome <;> rfl
-  simp [h1, h2, hpayload, hnoerr, h4]
+  simp [h0, h1, h2, hpayload, hnoerr, h4]
 
 /-! ### key derivation (RFC 3414 A.2) -/
 
